@@ -128,4 +128,55 @@ def App.getParamsM (a : App) (fields : Option Kw) (hits : Kind × Nat → Bool) 
     options positionally) reduce to the same call; `none` = the option was not given. -/
 def App.init (sinkBeforeStaticRoute : Option Bool) : App := { sinkFirst := sinkBeforeStaticRoute.getD true }
 
+/-! ### additions of the fourth strengthening round: the HISTORY of `add_route` calls (a template registered again, the same
+    resource object with another suffix or after it gained / lost responders), `suffix=''`, rejected registrations -/
+
+/-- `if suffix:` in `map_http_methods`: `None` and the empty string both mean "no suffix". The suffix is otherwise used
+    verbatim (`'on_' + method.lower() + '_' + suffix`): letter case, digits and underscores are significant. -/
+def effSuffix : Option String → Option String
+  | some s => if s.isEmpty then none else some s
+  | none => none
+
+/-- one call `add_route(uri_template, resource, suffix=…)`; `attrs` are the callable `on_*` attributes the resource object has
+    AT THE MOMENT OF THE CALL (the method map is built inside the call, `CompiledRouter.add_route`) -/
+structure RouteReg where
+  tmpl : String
+  rid : Nat
+  attrs : List Attr
+  suffix : Option String      -- as passed by the caller
+deriving Repr
+
+/-- what a router node carries after a registration: the method map; `suffix` is a ghost field (the effective suffix the
+    responders of `mm` carry) so that the driver can print which responder family ran -/
+structure Bound where
+  mm : MethodMap
+  suffix : Option String
+deriving Repr
+
+def bind (combined : List Method) (r : RouteReg) : Bound :=
+  { mm := mkMethodMap r.rid combined r.attrs (effSuffix r.suffix), suffix := effSuffix r.suffix }
+
+/-- the router's nodes that carry a resource, keyed by `uri_template` (the tree itself is C01's subject) -/
+abbrev Routes := List (String × Bound)
+
+/-- `insert()` in `CompiledRouter.add_route`: the first node that matches is overridden ("Override previous node":
+    `method_map`, `resource`, `uri_template` are replaced unconditionally - also when the resource object is the one already
+    stored there); otherwise a new node is appended -/
+def addRoute (combined : List Method) : Routes → RouteReg → Routes
+  | [], r => [(r.tmpl, bind combined r)]
+  | e :: rest, r => if e.1 == r.tmpl then (e.1, bind combined r) :: rest else e :: addRoute combined rest r
+
+/-- `if suffix and not method_map: raise SuffixedMethodNotFoundError` -/
+def accepted (combined : List Method) (r : RouteReg) : Bool :=
+  (effSuffix r.suffix).isNone || !(mapHttpMethods combined r.attrs (effSuffix r.suffix)).isEmpty
+
+/-- one `add_route` call: the error is raised before the tree is touched -/
+def addRouteCall (combined : List Method) (rs : Routes) (r : RouteReg) : Routes :=
+  if accepted combined r then addRoute combined rs r else rs
+
+def Routes.find (rs : Routes) (t : String) : Option Bound := (rs.find? (·.1 == t)).map (·.2)
+
+/-- the router after a history of `add_route` calls on a fresh app -/
+def routesOf (combined : List Method) (hist : List RouteReg) : Routes := hist.foldl (addRouteCall combined) []
+
 end Dp
